@@ -17,7 +17,14 @@ import (
 	"time"
 )
 
-const VerifRoot = "/verif"
+// VerifRoot is where evidence, replays and known_findings.json live (the
+// directory of the check script; /verif unless VERIF_ROOT says otherwise).
+var VerifRoot = func() string {
+	if r := os.Getenv("VERIF_ROOT"); r != "" {
+		return r
+	}
+	return "/verif"
+}()
 
 type phaseAgg struct {
 	Cases            int64            `json:"cases"`
